@@ -20,6 +20,11 @@ def probe_stanza(i, q, skip_underscore=False):
         if skip_underscore and c["name"].startswith("_"):
             continue      # an unread `_` capture (its predicates must still filter the matches)
         stmts.append(A.attrn(A.var("n"), A.attr("c_" + c["name"].replace("-", "_"), A.cap(c["name"]))))
+        if c["q"] in ("star", "plus", "*", "+", "ZeroOrMore", "OneOrMore") and i % 2 == 1:
+            # a `*`/`+` capture is a list: it can be iterated by comprehensions and loops
+            nm = c["name"].replace("-", "_")
+            stmts.append(A.attrn(A.var("n"), A.attr("l_" + nm, A.listc(A.call("node-type", A.var("e_" + nm)), "e_" + nm, A.cap(c["name"])))))
+            stmts.append(A.forin("f_" + nm, A.cap(c["name"]), [A.node(A.var("fn_" + nm))]))
     return A.stanza(q["q"], stmts)
 
 
@@ -95,6 +100,12 @@ def judge(run):
     stats = {"files": 0, "matches": 0, "visit_checks": 0}
     for case, res, cl in run.classified:
         o = case.get("outcome")
+        if o and "skip" not in case and o["status"] == "load_err" and case.get("id", "").startswith(("c03s", "c03p", "c03big", "c03wide", "c03m")):
+            # the probe files are valid by construction: every capture is used as its quantifier allows (`*`/`+` as lists)
+            payload = X.replay_payload(PROP, case, res, cl)
+            payload["detail"] = "a probe file is rejected by the loader, so no block runs for any match: %s" % o["err"]["display"][:300]
+            V.violation(case["id"] + "-load", payload, {"observed": "load_err"})
+            continue
         if not o or "skip" in case or o["status"] in ("load_err",):
             continue
         stats["files"] += 1
